@@ -13,8 +13,8 @@ THEOREMS = ['C01_step_refines', 'C01_refines_reference_map', 'C01_reads_refine',
             'C01_reads_agree', 'C01_reads_agree_example', 'C01_shadowing_refuted_without_recency',
             'C01_db_reads_agree', 'C01_db_reads_agree_example']
 
-# keyspace configurations drawn per keyspace: standard, key-value separation (threshold 1 / 8 bytes), FIFO with a limit that never evicts
-CONFIGS = ["", "", "blob=8", "fifo=4000000000", "blob=1"]
+# keyspace configurations drawn per keyspace: standard, key-value separation (threshold 1 / 8 bytes); FIFO is documented for insert-only workloads with monotone keys only (lsm-tree asserts a disjoint L0) and is exercised by dedicated scenarios
+CONFIGS = ["", "", "blob=8", "blob=1"]
 
 
 def programs(seed, n, nops):
